@@ -19,7 +19,11 @@ def nongp(case, fail):
     from . import opcases as OC
     if "env" not in case or "expr" not in case:
         return False
-    return (not OC.env_general_position(case["env"])) or (not OC.linear(case["expr"]))
+    env = case["env"]
+    if case.get("num") == "float":          # the values the library really gets
+        from . import impl as I
+        env = [I.shape_data(I.mk_shape(s, "float")) for s in env]
+    return (not OC.env_general_position(env)) or (not OC.linear(case["expr"]))
 
 
 @cls("float_encoding")
@@ -40,3 +44,33 @@ def float_xor(case, fail):
         return False
     depth = lambda x: 0 if x[0] == "var" else 1 + max(depth(a) for a in x[1:])
     return has_xor(e) or depth(e) >= 2
+
+
+@cls("near_vertex_float")
+def near_vertex_float(case, fail):
+    """F24: float coordinates and a crossing of the operands' boundaries that the library takes for a contact at a
+    vertex (crossing parameter within 1e-6 of an end of either edge -- computed exactly on the values of the floats),
+    and the operator raises AssertionError (the class of F16 at the library's tolerance).  Any other outcome on such
+    an input (a malformed or wrong result, another exception) is NOT excused."""
+    from . import gen as G, impl as I, oracle as O
+    if case.get("num") != "float" or "env" not in case:
+        return False
+    if "Assertion" not in str(fail.get("impl")):
+        return False
+    envd = [I.shape_data(I.mk_shape(s, "float")) for s in case["env"]]
+    js = [O.shape_jordans(s) for s in envd]
+    for i in range(len(js)):
+        for k in range(i + 1, len(js)):
+            if G.near_vertex_contact(js[i], js[k]):
+                return True
+    return False
+
+
+@cls("curved_chord_band")
+def curved_chord_band(case, fail):
+    """F12 inside an operator (cap-vs-polygon stream): a point the operator classifies against the cap lies between
+    the arc and the chords its winding number uses (harness/curved.py: chord_band) -- computed from the input only"""
+    if "cap" not in case:
+        return False
+    from . import curved as C
+    return C.chord_band(case)
